@@ -22,7 +22,8 @@ STRS = ["", "a", "ab", "null", "1", "1.5", "true", "[1,2]", '{"a":1}', "2020-01-
         "00000000-0000-0000-0000-000000000001", "a/b", "(1, 2)", "1,2", "{'a': 1}", "\n", "\\", "a\"b", "éè"]
 FLOATS = ["0.0", "1.5", "-2.25", "0.001", "123456.789", "1.0", "-0.5", "3.14159", "100.0", "1e-07", "1.5e+300", "2.5", "0.1"]
 DECS = ["0", "1.0", "-2.50", "3.14159", "100", "0.001", "12345678901234567890.123456789", "1E-7", "0.000001", "7", "1E+3"]
-PATHS = ["a", "a/b", "/", "/usr/lib", "1", "a.txt", "..", "x/y/z.tar.gz", "null", "3.5"]
+PATHS = ["a", "a/b", "/", "/usr/lib", "1", "a.txt", "..", "x/y/z.tar.gz", "null", "3.5",
+         '"a"', "'a'", '"/etc/passwd"', "[1]", '{"a": 1}', "true", "a b", "2020-01-01"]
 PATTERNS = ["abc", "a b", "x1", "hello", "A_b"]
 NAMES = ["a", "b", "c", "d", "e", "f", "val", "name", "items", "nxt", "kids", "x", "y"]
 
@@ -225,7 +226,8 @@ class Gen:
         for v in vals:
             if not any(type(v) is type(w) and v == w for w in out):
                 out.append(v)
-        return ["lit", out]
+        # "bare": spelled `Literal[...]` (imported name) rather than `typing.Literal[...]` -- the text a string-valued alias then carries
+        return ["lit", out] + ([{"sp": "bare"}] if r.random() < 0.35 else [])
 
     def ty(self, depth, in_field=False, allow_union=True):
         r, cfg = self.r, self.cfg
